@@ -52,11 +52,18 @@ pub const CORPUS: &[&str] = &[
     ">> title: T\n>> a: 1\n>> b: 2\n>> c: 3\n>> d: 4\n>> e: 5\n>> f: 6\n>> g: 7\n>> h: 8\n>> i: 9\nstep\n",
     "Mix [-- note --] the @flour{1 heaped%cup} [---] and @extra virgin\nolive oil{} (or\nnot)\n",
     ">> servings: 4|2\n>> prep time: 5\n>> cook time: 3\n>> time: 10\nAdd @a{=1%kg}()\n",
+    // units without `%` on every kind of component (advanced units), spaces that single edits turn into multi-byte ones
+    "#pan{2 large} @oil{1 tbsp} ~{5 min} #lid{1 big}(glass) @x{2 - 3 cups}\n",
+    // front matter with multi-byte line ends and standard keys that are diagnosed, LF and CRLF
+    "---\ntitle: é\nservings: muchas 😀\ntags: {a: é}\ntime: soon €\nlocale: español 😀\nprep time: é\ncook time: 😀\nauthor: [é]\n---\npaso @sal{1%g}\n",
+    "---\r\ntitle: é\r\nservings: muchas 😀\r\ntags: {a: é}\r\ntime: soon €\r\nlocale: español 😀\r\nprep time: é\r\ncook time: 😀\r\nauthor: [é]\r\n---\r\npaso @sal{1%g}\r\n",
+    "---\r\ntitle: T\r\ntime: 1h\r\ncourse: café\r\nprep time: 5 min\r\ncook time: 10 min 😀\r\nservings: [2, 2]\r\n---\r\nMix @a{1%kg}(é)\r\nand #p\r\n\r\n>> k: v\r\n",
+    "= Uno é =\r\n> nota é\r\n> más\r\n\r\nAñade @sal|é{1%g} [- é -] y ~{5%min}. -- é\r\n",
 ];
 
 fn edit_symbols(tier: Tier) -> Vec<&'static str> {
     match tier {
-        Tier::Quick => vec!["a", "1", " ", "\n", "@", "~", "{", "}", "(", "%", "|", "&", "-", "=", ">", ":", "\\", "é", "---\n", "[-"],
+        Tier::Quick => vec!["a", "1", " ", "\n", "@", "~", "{", "}", "(", "%", "|", "&", "-", "=", ">", ":", "\\", "é", "---\n", "[-", "\u{a0}", "\u{2009}"],
         Tier::Thorough => a_tok_wide().syms,
     }
 }
